@@ -81,6 +81,7 @@ theorem range_set_then_get (c v : NasVerif.Bytes) (lo hi : Nat) (h : lo ≤ hi) 
   obtain ⟨c', h1, h2⟩ := getRange_setRange c v lo hi h hv hc
   exact ⟨c', h1, h2, setRange_length c v lo hi h hv c' h1, fun i hi' => setRange_frame c v lo hi h hv c' h1 i hi'⟩
 
+set_option maxRecDepth 100000 in
 /-- non-vacuity: the 10-bit two-octet field of GUTI5G is one of the pairs, and the check computes on it -/
 example : (pairs.filter (fun p => p.type == "GUTI5G" && p.field == "AMFSetID")).map (fun p => (p.ann, pairOK p)) =
     [(⟨5, 6, 8, 10⟩, true)] := by decide
